@@ -207,7 +207,7 @@ func (eightChar *EightChar) GetDayShiShenZhi() *list.List {
 }
 
 func (eightChar *EightChar) GetDayDiShi() string {
-	return eightChar.getDiShi(eightChar.lunar.GetDayZhiIndexExact())
+	return eightChar.getDiShi(eightChar.GetDayZhiIndex())
 }
 
 func (eightChar *EightChar) GetTime() string {
